@@ -329,12 +329,13 @@ pub fn cond_cycle(kind: Kind) -> Program {
 /// must not be reused once the cycle is gone).
 pub fn head_flag_cycle(kind: Kind) -> Program {
     Program {
-        name: format!("headflagcyc-{kind:?}"),
+        name: format!("deeper-headflagcyc-{kind:?}"),
         cells: vec![(0, Dur::Low), (1, Dur::Low)],
         nodes: vec![
             NodeDef::new(kind, Ex::ifc(0, k(4), Ex::or(call(1), k(1)))),
-            NodeDef::new(kind, Ex::or(call(0), k(2))),
-            NodeDef::new(Kind::Ev, Ex::add(call(0), call(1))),
+            // (a function without cycle handling that takes part in the head's iteration)
+            NodeDef::new(Kind::Ev, Ex::or(call(0), k(2))),
+            NodeDef::new(Kind::Ev, Ex::add(call(0), k(1))),
         ],
         ext: vec![0],
         root0: None,
